@@ -719,10 +719,29 @@ func init() {
 							}
 						}
 						// wait (generously) until as many transactions arrived as were acknowledged, then take what else is there
+						// (a call that failed may have delivered its transaction all the same, once or several times: arrivals are
+						// matched by content, not counted)
 						var got [][]byte
-						deadline := time.After(20 * time.Second)
+						haveAll := func() bool {
+							pos := 0
+							for _, tx := range okSent {
+								found := false
+								for pos < len(got) {
+									pos++
+									if bytes.Equal(got[pos-1], tx) {
+										found = true
+										break
+									}
+								}
+								if !found {
+									return false
+								}
+							}
+							return true
+						}
+						deadline := time.After(60 * time.Second)
 					waitLoop:
-						for len(got) < len(okSent) {
+						for !haveAll() {
 							select {
 							case t := <-recv:
 								got = append(got, t)
